@@ -163,6 +163,7 @@ def check_C18(report, tier, seed):
     engine_check("C18", report, tier, seed)
     S.timeout_at_failing_service_family(report, "C18")
     S.timeout_while_written_family(report, "C18")
+    S.timeout_before_close_family(report, "C18")
 
 
 def check_C17(report, tier, seed):
